@@ -16,6 +16,7 @@ func baseCfg() engine.GenCfg {
 func TestC01(t *testing.T) {
 	cfg := baseCfg()
 	engine.CheckE1(t, "C01", cfg, func(c *engine.Case, w *engine.World) bool {
-		return w.Delivered >= 4
+		return w.Delivered >= 4 && (f(w, "events-decoded-at-offset>0") >= 2 || f(w, "boundary-name-events") > 0 ||
+			f(w, "ops-reported-by-two-watches") > 0 || f(w, "link-or-held-descriptor-ops-with-events") > 0 || f(w, "overwrite-or-multi-watch-renames") > 0)
 	})
 }
